@@ -10,19 +10,25 @@ Definition rd_pre (p : rpc) : bool := match p with RIdle | RCheck | RState | RAr
 Definition lc_mid_open (l : lpc) : bool :=
   match l with LCased SOpen | LCleaned SOpen | LCased SLocalHalf | LCleaned SLocalHalf => true | _ => false end.
 
+(* the wake-up part: holds for EVERY schedule, including the two-step timer expiry FireA / FireB *)
 Record WInv (s : st) : Prop := {
   w_n1 : (0 < pend s)%nat -> rd_waiting (rd s) = true -> token s = true \/ epc s = true;
   w_n2 : ss s <> SOpen -> closeN s = true \/ ppc s = true \/ lc_mid_open (lc s) = true \/ dpc s = true;
   w_n3 : sclosing s = true -> closeN s = true;
-  w_t0 : rd_pre (rd s) = true -> tmr s = None /\ tch s = false;
-  w_t1 : forall t, tmr s = Some t -> t = armed s /\ use_t s = true;
-  w_t2 : tch s = true -> use_t s = true /\ armed s <= now s;
-  w_t3 : rd_pre (rd s) = false -> use_t s = true ->
-         dl s = Some (armed s) /\ (tch s = true \/ tmr s = Some (armed s));
   w_e1 : forall n, res s = Some (ROk n) -> (minsz s <= n)%nat;
   w_r : res s <> None -> rd s = RDone }.
 
+(* the timer part: also for EVERY schedule (the timer and its channel are fresh for every wait) *)
+Record TInv (s : st) : Prop := {
+  w_t0 : rd_pre (rd s) = true -> tmr s = None;
+  w_t1 : forall t, tmr s = Some t -> t = armed s /\ use_t s = true;
+  w_t3 : rd_pre (rd s) = false -> use_t s = true ->
+         dl s = Some (armed s) /\ (tch s = true -> armed s <= now s) /\ (ptick s = true -> armed s <= now s) /\
+         (tch s = true \/ ptick s = true \/ tmr s = Some (armed s)) }.
+
 Lemma winv_init : WInv init.
+Proof. constructor; cbn; intros; try discriminate; try lia; try tauto; auto. Qed.
+Lemma tinv_init : TInv init.
 Proof. constructor; cbn; intros; try discriminate; try lia; try tauto; auto. Qed.
 
 Ltac brk :=
@@ -66,11 +72,21 @@ Ltac fld := cbn in *; intros; norm; rewrite ?orb_false_r, ?orb_true_r in *;
 
 Lemma winv_step : forall s e, WInv s -> WInv (step s e).
 Proof.
-  intros s e [h1 h2 h3 h4 h5 h6 h7 h8 h9].
-  destruct s as [pend0 rbuf0 token0 closeN0 ss0 epc0 ppc0 lc0 sclosing0 dpc0 now0 dl0 tmr0 tch0 use_t0 armed0 rd0 minsz0 res0].
-  cbn in h1, h2, h3, h4, h5, h6, h7, h8, h9.
+  intros s e [h1 h2 h3 h8 h9].
+  destruct s as [pend0 rbuf0 token0 closeN0 ss0 epc0 ppc0 lc0 sclosing0 dpc0 now0 dl0 tmr0 tch0 ptick0 use_t0 armed0 rd0 minsz0 res0].
+  cbn in h1, h2, h3, h8, h9.
   destruct e; cbn [step]; unfold reader_step, wake, finish_early, finish_late, move_to, set_rd;
-    cbn [pend rbuf token closeN ss epc ppc lc sclosing dpc now dl tmr tch use_t armed rd minsz res];
+    cbn [pend rbuf token closeN ss epc ppc lc sclosing dpc now dl tmr tch ptick use_t armed rd minsz res];
+    brk; constructor; fld.
+Qed.
+
+Lemma tinv_step : forall s e, TInv s -> TInv (step s e).
+Proof.
+  intros s e [h4 h5 h7].
+  destruct s as [pend0 rbuf0 token0 closeN0 ss0 epc0 ppc0 lc0 sclosing0 dpc0 now0 dl0 tmr0 tch0 ptick0 use_t0 armed0 rd0 minsz0 res0].
+  cbn in h4, h5, h7.
+  destruct e; cbn [step]; unfold reader_step, wake, finish_early, finish_late, move_to, set_rd;
+    cbn [pend rbuf token closeN ss epc ppc lc sclosing dpc now dl tmr tch ptick use_t armed rd minsz res];
     brk; constructor; fld.
 Qed.
 
@@ -80,3 +96,8 @@ Proof.
   change (run (e :: r) s) with (run r (step s e)). apply IH. apply winv_step. assumption.
 Qed.
 
+Lemma tinv_run : forall evs s, TInv s -> TInv (run evs s).
+Proof.
+  induction evs as [|e r IH]; intros s HI; [exact HI|].
+  change (run (e :: r) s) with (run r (step s e)). apply IH. apply tinv_step. assumption.
+Qed.
